@@ -28,11 +28,16 @@ Record src := {
   lo : bytes;             (* StreamWithLeftover: leftover not yet replayed *)
   segs : list bytes;      (* the stream: future segments, [] = EOF *)
   sfuel : nat;            (* a constant of the model only: loop fuel, fixed at creation from the total input length *)
+  stake : option N;       (* Read::take(limit) between the BufReader and the stream: bytes it may still pass on *)
 }.
 
 Definition mk_src (leftover : bytes) (stream : list bytes) : src :=
   {| bbuf := []; lo := leftover; segs := stream;
-     sfuel := 4 * S (length leftover + length (concat stream)) + 8 |}.
+     sfuel := 4 * S (length leftover + length (concat stream)) + 8; stake := None |}.
+(* the same source behind `.take(limit)` *)
+Definition mk_src_take (leftover : bytes) (stream : list bytes) (limit : N) : src :=
+  {| bbuf := []; lo := leftover; segs := stream;
+     sfuel := 4 * S (length leftover + length (concat stream)) + 8; stake := Some limit |}.
 
 (* everything still unread, in order *)
 Definition src_rest (s : src) : bytes := bbuf s ++ lo s ++ concat (segs s).
@@ -57,23 +62,33 @@ Definition inner_read (k : N) (l : bytes) (sg : list bytes) : bytes * bytes * li
   | [] => let '(out, sg') := stream_read k sg in (out, [], sg')
   end.
 
+(* Take<StreamWithLeftover>::read(k): at most `limit` more bytes, Ok(0) once the limit is used up *)
+Definition take_read (k : N) (s : src) : bytes * bytes * list bytes * option N :=
+  match stake s with
+  | None => let '(out, l', sg') := inner_read k (lo s) (segs s) in (out, l', sg', None)
+  | Some lim =>
+      if N.eqb lim 0 then ([], lo s, segs s, Some 0%N)
+      else let '(out, l', sg') := inner_read (N.min k lim) (lo s) (segs s) in
+           (out, l', sg', Some (lim - lenN out)%N)
+  end.
+
 (* BufReader::fill_buf: refill (one inner read of up to capacity) only when empty *)
 Definition fill_buf (s : src) : src :=
   match bbuf s with
   | _ :: _ => s
-  | [] => let '(out, l', sg') := inner_read BUF_SIZE (lo s) (segs s) in
-          {| bbuf := out; lo := l'; segs := sg'; sfuel := sfuel s |}
+  | [] => let '(out, l', sg', tk) := take_read BUF_SIZE s in
+          {| bbuf := out; lo := l'; segs := sg'; sfuel := sfuel s; stake := tk |}
   end.
 
 Definition consume (n : N) (s : src) : src :=
-  {| bbuf := skipnN n (bbuf s); lo := lo s; segs := segs s; sfuel := sfuel s |}.
+  {| bbuf := skipnN n (bbuf s); lo := lo s; segs := segs s; sfuel := sfuel s; stake := stake s |}.
 
 (* BufReader::read(k): bypass when the buffer is empty and k >= capacity *)
 Definition buf_read (k : N) (s : src) : bytes * src :=
   match bbuf s with
   | [] =>
       if N.leb BUF_SIZE k then
-        let '(out, l', sg') := inner_read k (lo s) (segs s) in (out, {| bbuf := []; lo := l'; segs := sg'; sfuel := sfuel s |})
+        let '(out, l', sg', tk) := take_read k s in (out, {| bbuf := []; lo := l'; segs := sg'; sfuel := sfuel s; stake := tk |})
       else
         let s' := fill_buf s in (firstnN k (bbuf s'), consume k s')
   | _ :: _ => (firstnN k (bbuf s), consume k s)
@@ -303,7 +318,7 @@ Inductive body :=
 | BFixed (r : fixed) | BChunked (c : chunked) | BEof (s : src) | BEmpty (s : src).
 
 Definition new_fixed (leftover : bytes) (stream : list bytes) (len : N) : body :=
-  BFixed {| f_src := mk_src leftover stream; f_remaining := len |}.
+  BFixed {| f_src := mk_src_take leftover stream len; f_remaining := len |}.
 Definition new_chunked (leftover : bytes) (stream : list bytes) : body :=
   BChunked {| c_src := mk_src leftover stream; c_state := CSize; c_remaining := 0 |}.
 Definition new_eof (leftover : bytes) (stream : list bytes) : body := BEof (mk_src leftover stream).
